@@ -72,3 +72,16 @@ extra_text.append("Definition C01_RX_CHECKS_BEFORE_ALLOC : bool := %s.  "
                   % ("true" if _before else "false"))
 extra_text.append("Definition C01_IPC_TYPE_CHECK : bool := %s.  (* ipc_pipe_recv_cb: if (p->rx_head[0] != 1) => NNG_EPROTO *)"
                   % ("true" if re.search(r"if \(p->rx_head\[0\] != 1\) \{\s*rv = NNG_EPROTO;", src(_ipc)) else "false"))
+
+# nni_msg_pull_up: is the result of nni_msg_insert tested?
+m = re.search(r"\nnni_msg_pull_up\(nni_msg \*m\)\s*\{.*?\n\}", src("src/core/message.c"), re.S)
+if not m:
+    missing.append("nni_msg_pull_up in src/core/message.c")
+else:
+    _b = m.group(0)
+    if "nni_msg_insert(" not in _b:
+        missing.append("nni_msg_insert call in nni_msg_pull_up")
+    _chk = re.search(r"if\s*\(\s*\(?\s*(?:rv\s*=\s*)?nni_msg_insert\(", _b) is not None or \
+        re.search(r"rv\s*=\s*nni_msg_insert\([^;]*;\s*if\s*\(rv", _b) is not None
+    extra_text.append("Definition C01_PULLUP_CHECKS_INSERT : bool := %s.  (* message.c nni_msg_pull_up tests the result of nni_msg_insert *)"
+                      % ("true" if _chk else "false"))
